@@ -1230,7 +1230,34 @@ def r8_one_edge_kind_per_node(ctx):
     c02.r2_conflict_table(Renamed(ctx, "C01.R8", "a node is reached through one kind of edge only: registering a literal, a single variable or a wildcard where another kind (or another variable name) exists is refused"))
 
 
-RULES = [("C01.R8", r8_one_edge_kind_per_node), ("C01.R1", r1_request_wiring), ("C01.R2", r2_one_endpoint), ("C01.R3", r3_walk_integrity), ("C01.R4", r4_key_normalisation),
+def r9_registered_routes_survive_the_builders(ctx):
+    """Added after adversary change C01-K (`tag_config(self, cfg)` became a forwarder to a new constructor: it dropped `self` and returned
+    an empty description, so endpoints registered before the call answered 404): the router a description has registered into is the one
+    its by-value methods hand on -- a builder returns its receiver, into_router() returns the receiver's router."""
+    from .lib_c01 import access_path, VALUE_PRESERVING
+    R = ctx.rule("C01.R9", "every method of ApiDescription that takes the description by value hands its router on: builders return the receiver itself, into_router() returns self.router", floor=2)
+    ds = ctx.ds
+    n = 0
+    for k, f in sorted(ds.F.items()):
+        if not re.match(r"^api_description::ApiDescription::<\w+>::\w+$", k) or f.argc < 1:
+            continue
+        t0, t1 = f.local_ty(0) or "", f.local_ty(1) or ""
+        if not re.match(r"^api_description::ApiDescription<", t1):
+            continue        # takes a reference (or is a constructor): cannot lose the router
+        n += 1
+        p = access_path(f, {"k": "move", "pl": {"l": 0, "p": []}}, VALUE_PRESERVING)
+        if re.match(r"^api_description::ApiDescription<", t0):
+            ok = p.kind() == "param" and p.root_local() == 1 and not p.path
+            ctx.check(R, "builder-returns-its-receiver:%s" % k.rsplit("::", 1)[-1], ok, "%s returns %r (must be `self`, with only fields assigned)" % (k.rsplit("::", 1)[-1], p), f)
+        elif re.match(r"^router::HttpRouter<", t0):
+            ok = p.kind() == "param" and p.root_local() == 1 and p.path == ["router"]
+            ctx.check(R, "hands-over-its-own-router:%s" % k.rsplit("::", 1)[-1], ok, "%s returns %r (must be self.router)" % (k.rsplit("::", 1)[-1], p), f)
+        else:
+            ctx.check(R, "by-value-method-reviewed:%s" % k.rsplit("::", 1)[-1], False, "%s consumes the description and returns %s: not a reviewed shape" % (k, t0[:60]), f)
+    ctx.check(R, "by-value-methods", n >= 2, "methods of ApiDescription taking `self` by value: %d" % n, None, nontrivial=False)
+
+
+RULES = [("C01.R9", r9_registered_routes_survive_the_builders), ("C01.R8", r8_one_edge_kind_per_node), ("C01.R1", r1_request_wiring), ("C01.R2", r2_one_endpoint), ("C01.R3", r3_walk_integrity), ("C01.R4", r4_key_normalisation),
          ("C01.R5", r5_one_version_predicate), ("C01.R6", r6_order_independence), ("C01.R6E2", r6e2_overlap_table),
          ("C01.R7", r7_versioned_routes_need_versioned_server)]
 
